@@ -688,6 +688,9 @@ def run(chk, repo, tier):
     chk.clause('C20-e', 'boundary reduces rows over axis 1 and columns over axis 0; rebin sums exactly the factor axes; centroid axes', 7)
     chk.clause('C20-f', 'drawn shapes lie in [0,1] and are binary without antialiasing', 8)
     chk.clause('C20-g', 'hex_ring yields 6*radius hexagons; hex_segments counts 1+3k(k+1)-|drop|', 3)
+    # samples shared by two drawn segments are taken from the later one through a claim map: a boolean one
+    from .common import mask_index_rule
+    mask_index_rule(chk, repo, 'C20-g', ['segmented.hex_segments'], config=[{'antialias': FALSE}, None])
     chk.clause('C20-h', 'hexagonal grid: axial -> cartesian map, (row, col) = (-y, x), pitch seg_radius + seg_gap/2', 4)
     chk.clause('C20-j', 'hexagonal segments are mutually non-overlapping, also with no gap between them', 1)
     non_overlap_rule(chk, repo, 'C20-j')
